@@ -121,10 +121,21 @@ def listMin : List α → α
   | [] => 0
 
 /-- a summary on the original scale equals that summary of the raw column.  For a column with
-    missing values either numpy convention is accepted (NaN-propagating or NaN-ignoring). -/
+    missing values either numpy convention is accepted (NaN-propagating or NaN-ignoring): used for the
+    extrema and the range, where the statement fixes neither. -/
 def statOk (tol : Tol α) (mag : α) (f : List α → α) (truth : Col α) (obs : Option α) : Bool :=
   if hasNaN truth then closeO tol mag obs (expectProp f truth) || closeO tol mag obs (expectIgn f truth)
   else closeO tol mag obs (expectProp f truth)
+
+/-- a MOMENT (mean; deviation and variance through `stdOk` / `varOk`) on the original scale equals that
+    moment of the OBSERVED raw values (numpy `nanf(col)`), also when values are missing.  The statement itself
+    fixes this convention: the matrix is "centred and scaled per trait" by exactly these quantities (clause
+    `standardised`: location = mean, scale = deviation of the observed values — with the NaN-propagating ones a
+    single missing taxon would turn every stored value of the trait into NaN, i.e. contaminate the other
+    entries), so the mean / deviation / variance of the raw values it promises on the original scale are the
+    same numbers; one missing taxon must not turn them into NaN.  A trait without any value has none. -/
+def momentOk (tol : Tol α) (mag : α) (f : List α → α) (truth : Col α) (obs : Option α) : Bool :=
+  closeO tol mag obs (expectIgn f truth)
 
 /-- an arg-extremum is right when the raw value at that position is extremal (ties and values within
     rounding error of each other may resolve either way); with missing values numpy's "first NaN"
@@ -140,13 +151,13 @@ def argOk (tol : Tol α) (mag : α) (ext : List α → α) (truth : Col α) (obs
 
 def stdOk (sqT : α → α) (tol : Tol α) (mag : α) (truth : Col α) (obs : Option α) : Bool :=
   match obs with
-  | none => hasNaN truth || (present truth).isEmpty
+  | none => (present truth).isEmpty        -- NaN only for a trait without any value (see `momentOk`)
   | some s => !(present truth).isEmpty && decide (0 ≤ s) &&
       (if varL (present truth) = 0 then decide (s ≤ tol.abs * mag) else stdClose sqT tol mag s (varL (present truth)))
 
 def varOk (sqT : α → α) (tol : Tol α) (mag : α) (truth : Col α) (obs : Option α) : Bool :=
   match obs with
-  | none => hasNaN truth || (present truth).isEmpty
+  | none => (present truth).isEmpty
   | some w => !(present truth).isEmpty &&
       (if varL (present truth) = 0 then decide (absR w ≤ tol.abs * mag) else varClose sqT tol mag w (varL (present truth)))
 
@@ -157,7 +168,7 @@ def statsCol (sqT : α → α) (tol : Tol α) (mag : α) (truth : Col α) (o : O
   (if statOk tol mag listMax truth o.tmax then [] else ["stat:tmax"]) ++
   (if statOk tol mag listMin truth o.tmin then [] else ["stat:tmin"]) ++
   (if statOk tol mag (fun l => listMax l - listMin l) truth o.trange then [] else ["stat:trange"]) ++
-  (if statOk tol mag meanL truth o.tmean then [] else ["stat:tmean"]) ++
+  (if momentOk tol mag meanL truth o.tmean then [] else ["stat:tmean"]) ++
   (if argOk tol mag listMax truth o.targmax then [] else ["stat:targmax"]) ++
   (if argOk tol mag listMin truth o.targmin then [] else ["stat:targmin"]) ++
   (if stdOk sqT tol mag truth o.tstd then [] else [if isConst truth then "stat:tstd:constant" else "stat:tstd"]) ++
@@ -207,7 +218,7 @@ def anyStateCol (sqT : α → α) (tol : Tol α) (mag : α) (withStats : Bool) (
 
 /-- the mean clause against the object's own unscaled column (fails in a stale state: D25) -/
 def selfMeanCol (tol : Tol α) (mag : α) (o : ObsCol α) : List String :=
-  if statOk tol mag meanL o.unscale o.tmean then [] else ["self:stat:tmean"]
+  if momentOk tol mag meanL o.unscale o.tmean then [] else ["self:stat:tmean"]
 
 /-- entrywise agreement at the positions where `mask` is true ("every RETAINED taxon") -/
 def rawOkMask (tol : Tol α) (mag : α) (mask : List Bool) (truth obs : Col α) : Bool :=
